@@ -24,8 +24,12 @@ PLANS = {
         ["issue.accept", "issue.exact", "holder.new", "present.ok", "verify.accept", "verify.view", "verify.claims", "verify.clean",
          "scn.expect.reject", "scn.expect.claims", "scn.model.agrees"],
         [RT, SH],
-        [REPLAY_RT_Q, REPLAY_SH, {"driver": "rich", "args": {"n": 700, "depth": 5, "arbsel": 0}}, {"driver": "repotests"}],
-        [REPLAY_RT_T, REPLAY_SH, {"driver": "rich", "args": {"n": 6000, "depth": 7, "arbsel": 0}}, {"driver": "repotests"}],
+        # (the tampering driver is here for one thing: the honest presentation verified again AFTER hundreds of refused variants of
+        #  itself on the same thread must still be accepted - seeded W12_2m2, state left behind by a verification that failed)
+        [REPLAY_RT_Q, REPLAY_SH, {"driver": "rich", "args": {"n": 700, "depth": 5, "arbsel": 0}}, {"driver": "repotests"},
+         {"driver": "attack", "args": {"n": 4, "family": "disc", "stride": 3}}],
+        [REPLAY_RT_T, REPLAY_SH, {"driver": "rich", "args": {"n": 6000, "depth": 7, "arbsel": 0}}, {"driver": "repotests"},
+         {"driver": "attack", "args": {"n": 12, "family": "disc", "stride": 2}}],
         required={"verify.accept": 300, "verify.view": 300, "scn.expect.claims": 100},
         rule="cases = TLC-generated behaviours of MC_roundtrip replayed over a key/format matrix + seeded random claim trees "
              "(Unicode incl. non-BMP, empty containers, u64/i64/f64, depth <= 8) x strategies x type-consistent selections; "
